@@ -152,6 +152,13 @@ func (w *concWorker) step(i int) uint64 {
 			return f.h
 		}
 		readBack(r, w.obj, bInto|bAdv|bIface|bMarshal, what, nil)
+		if c.Intn("hot", 3) == 0 && len(w.obj.pj.Tape) < 4000 {
+			// sustained traffic: the same read-only traversal many times over, while the others do the same
+			n := 50 + c.Intn("hotn", 400)
+			for k := 0; k < n && !r.failed(); k++ {
+				readBack(r, w.obj, bIface, what+" (repeated traversal)", nil)
+			}
+		}
 		if out, err := MarshalRoot(w.obj.pj); err == nil {
 			f.bytes(out)
 		}
@@ -297,6 +304,23 @@ func (w *concWorker) step(i int) uint64 {
 		if derr != nil {
 			f.u64(1)
 			w.dst = dst
+			if dst != nil && c.Intn("dmgretry", 2) == 0 {
+				// the caller tries again at once with the intact blob, same Serializer, same destination
+				var out2 *simdjson.ParsedJson
+				var derr2 error
+				if err := safely(func() error { out2, derr2 = ser.Deserialize(w.blob.b, dst); return nil }); err != nil {
+					walkerFail(r, "panic", what, err)
+					return 0
+				}
+				if derr2 != nil {
+					r.violate("solo-equal", "deserialize-failed:"+msgClass(derr2.Error()), fmt.Sprintf("%s: Deserialize of this worker's own blob right after a failed call failed: %v", what, derr2))
+					return 0
+				}
+				w.dst = nil
+				w.obj = &simObj{pj: out2, model: cloneRoots(w.blob.model), nd: w.blob.nd, copy: true, origin: what}
+				readBack(r, w.obj, bInto|bAdv, what+" (retry after a failed Deserialize)", nil)
+				f.u64(tapeDigest(out2))
+			}
 		} else if dst != nil {
 			w.dst = out
 		}
@@ -633,6 +657,35 @@ func runConcRace(r *Run) {
 			pos[i]++
 		}
 		steps++
+	}
+	if c.Intn("storm", 2) == 0 {
+		// final phase: every worker reads its own object back many times over, all at once - sustained parallel
+		// traffic through whatever the traversal code shares behind the API (caches, pools)
+		n := 100 + c.Intn("stormn", 900)
+		start := make(chan struct{})
+		var wg sync.WaitGroup
+		k := 0
+		for _, w := range ws {
+			if w.obj == nil || !w.obj.readable() || len(w.obj.pj.Tape) > 4000 {
+				continue
+			}
+			k++
+			w := w
+			wg.Add(1)
+			go func() {
+				defer wg.Done()
+				<-start
+				for i := 0; i < n && !w.run.failed(); i++ {
+					readBack(w.run, w.obj, bIface, "repeated traversal while all other workers do the same", nil)
+				}
+			}()
+		}
+		close(start)
+		wg.Wait()
+		if k > 1 {
+			r.stat("traversal_storms", 1)
+			r.stat("traversal_storm_reads", k*n)
+		}
 	}
 	r.Res.Steps += steps
 	r.Res.Evals++
